@@ -398,6 +398,106 @@ async fn plateau_case(rep: &mut Report, rng: &mut Rng, pair: Pair, tr: Transport
   let _ = tokio::time::timeout(Duration::from_secs(12), ctx.term()).await;
 }
 
+/// (recv under churn) RCVTIMEO must mean what it says while OTHER things happen on the socket: nothing is ever sent to
+/// it, but silent peers keep connecting (and half of them disconnecting again) more often than once per RCVTIMEO.
+/// recv()/recv_multipart() must still give up after RCVTIMEO - not after the churn ends.
+async fn recv_churn_case(rep: &mut Report, t: SocketType, rcvtimeo: u64, every_ms: u64, tr: Transport) {
+  let ctx = util::new_ctx();
+  let peer_t = match t {
+    SocketType::Pull => SocketType::Push,
+    SocketType::Sub => SocketType::Pub,
+    SocketType::Dealer => SocketType::Router,
+    SocketType::Router => SocketType::Dealer,
+    SocketType::Rep => SocketType::Req,
+    _ => SocketType::Rep,
+  };
+  let s = ctx.socket(t).unwrap();
+  util::set_i32(&s, opt::RCVTIMEO, rcvtimeo as i32).await;
+  if t == SocketType::Sub {
+    s.set_option(opt::SUBSCRIBE, "").await.unwrap();
+  }
+  let ep = match util::bind_fresh(&s, tr).await {
+    Ok(e) => e,
+    Err(e) => {
+      rep.inconclusive(format!("bind {e}"));
+      return;
+    }
+  };
+  let name = util::socket_type_name(t);
+  let churn_for = Duration::from_millis(rcvtimeo * 10 + 1000);
+  let stop = std::sync::Arc::new(std::sync::atomic::AtomicBool::new(false));
+  let churn = {
+    let peer_ctx = util::new_ctx();
+    let ep = ep.clone();
+    let stop = stop.clone();
+    tokio::spawn(async move {
+      let mut keep = vec![];
+      let mut k = 0usize;
+      while !stop.load(std::sync::atomic::Ordering::SeqCst) {
+        if let Ok(p) = peer_ctx.socket(peer_t) {
+          let _ = p.connect(&ep).await;
+          if k % 2 == 0 {
+            keep.push(p);
+          } else {
+            let p2 = p.clone();
+            tokio::spawn(async move {
+              tokio::time::sleep(Duration::from_millis(40)).await;
+              let _ = p2.close().await;
+            });
+          }
+        }
+        k += 1;
+        tokio::time::sleep(Duration::from_millis(every_ms)).await;
+      }
+      drop(keep);
+      let _ = tokio::time::timeout(Duration::from_secs(10), peer_ctx.term()).await;
+      k
+    })
+  };
+  tokio::time::sleep(Duration::from_millis(50)).await;
+  let mut worst = Duration::ZERO;
+  let mut outcomes: Vec<String> = vec![];
+  for multi in [false, true] {
+    if t == SocketType::Req {
+      continue; // recv on REQ is only legal after a send; covered without churn
+    }
+    let t0 = Instant::now();
+    let r = tokio::time::timeout(churn_for, async {
+      if multi {
+        s.recv_multipart().await.map(|_| ())
+      } else {
+        s.recv().await.map(|_| ())
+      }
+    })
+    .await;
+    let el = t0.elapsed();
+    worst = worst.max(el);
+    let how = if multi { "recv_multipart" } else { "recv" };
+    rep.case(&("recv_churn", name, rcvtimeo, every_ms, tr, multi), true);
+    outcomes.push(format!("{}: {:?} after {:?}", how, r.as_ref().map(|x| x.as_ref().map_err(|e| util::err_kind(e))).map_err(|_| "still blocked"), el));
+    let late = Duration::from_millis(rcvtimeo) + util::scaled(Duration::from_millis(1200));
+    match r {
+      Err(_) => rep.violation(format!("rcvtimeo_postponed_by_connection_churn|{}", name), format!("{} {}() with RCVTIMEO={} ms and nothing to receive was still blocked after {:?} while silent peers connected every {} ms over {}", name, how, rcvtimeo, churn_for, every_ms, tr.name()), json!({"rcvtimeo": rcvtimeo, "every_ms": every_ms})),
+      Ok(Ok(())) => rep.violation(format!("recv_spurious_success|{}", name), format!("{} {}() returned a message although nothing was sent (connection churn)", name, how), json!({})),
+      Ok(Err(e)) => {
+        if !(is_timeout(&e) || is_wouldblock(&e)) {
+          rep.violation(format!("rcvtimeo_wrong_error_under_churn|{}", name), format!("{} {}() under connection churn returned {:?} after {:?}", name, how, e, el), json!({}));
+        } else if el > late {
+          rep.violation(format!("rcvtimeo_postponed_by_connection_churn|{}", name), format!("{} {}() with RCVTIMEO={} ms returned only after {:?} while silent peers connected every {} ms over {}", name, how, rcvtimeo, el, every_ms, tr.name()), json!({"rcvtimeo": rcvtimeo, "elapsed_ms": el.as_millis() as u64}));
+        } else if el + Duration::from_millis(15) < Duration::from_millis(rcvtimeo) {
+          rep.violation(format!("rcvtimeo_early_under_churn|{}", name), format!("{} {}() with RCVTIMEO={} ms gave up after only {:?} under connection churn", name, how, rcvtimeo, el), json!({}));
+        }
+      }
+    }
+  }
+  stop.store(true, std::sync::atomic::Ordering::SeqCst);
+  let peers = tokio::time::timeout(Duration::from_secs(15), churn).await.ok().and_then(|x| x.ok()).unwrap_or(0);
+  rep.count("recv_churn_peers_connected", peers as u64);
+  rep.max("max:recv_under_churn_ms", worst.as_millis() as u64);
+  let _ = outcomes;
+  let _ = tokio::time::timeout(Duration::from_secs(12), ctx.term()).await;
+}
+
 fn main() {
   let args = Args::parse();
   util::install_panic_watch();
@@ -425,6 +525,18 @@ fn main() {
       }
     }
     Some("recv") => {
+      for t in [SocketType::Router, SocketType::Pull, SocketType::Dealer, SocketType::Sub, SocketType::Rep] {
+        for (to, every, tr) in [(300u64, 100u64, Transport::Tcp), (150, 40, Transport::Ipc)] {
+          idx += 1;
+          if !args.thorough() && tr == Transport::Ipc && !matches!(t, SocketType::Router | SocketType::Pull) {
+            continue;
+          }
+          if args.mine(idx) {
+            util::guarded(&rt, recv_churn_case(&mut rep, t, to, every, tr));
+          }
+        }
+      }
+      util::cleanup_ipc_dir();
       for t in [SocketType::Pull, SocketType::Sub, SocketType::Dealer, SocketType::Router, SocketType::Rep, SocketType::Req] {
         for to in [0, 20, 100, 500, -1] {
           idx += 1;
